@@ -574,11 +574,38 @@ fn c12_bounds(ctx: &mut Ctx) {
 }
 
 fn c12_angle(ctx: &mut Ctx) {
+    let deg = ctx.flag();
     let x = match maybe_constant(ctx, 30, false) {
         Some(c) => c,
+        None if ctx.chance(1, 6) => {
+            // whole degrees: to_radians(k) and to_degrees(k*pi/180 -+ a few ulps of the low word),
+            // where results are (nearly) integers and shortcuts / snapping would live
+            ctx.label("arg:whole-degrees");
+            let k = match ctx.below(3) {
+                0 => [30i64, 45, 60, 90, 120, 180, 270, 360, 720, 1][ctx.below(10) as usize],
+                1 => ctx.range(1, 360),
+                _ => ctx.range(1, 100_000),
+            };
+            let k = if ctx.flag() { -k } else { k };
+            if deg {
+                let h = Hp::new(384);
+                let v = h.div(&h.pi().mul(&Big::from_i64(k)), &Big::from_u64(180));
+                let d = crate::p_conv::dd_from_big(&v);
+                let j = match ctx.below(4) {
+                    0 => 0,
+                    1 => ctx.range(-8, 8),
+                    2 => ctx.range(-128, 128),
+                    _ => (1i64 << ctx.range(7, 24)) * if ctx.flag() { -1 } else { 1 },
+                };
+                let p = Dd::new(d.hi, step(d.lo, j));
+                if p.valid() && d.lo != 0.0 { p } else { d }
+            } else {
+                let hi = k as f64;
+                if ctx.flag() { Dd::new(hi, 0.0) } else { dd_at(ctx, hi) }
+            }
+        }
         None => dd_closed(ctx, -450, 450, true),
     };
-    let deg = ctx.flag();
     x.key(ctx);
     ctx.key_u64(deg as u64);
     note_dd(ctx, "x", x);
